@@ -12,8 +12,9 @@
       lin a x b y         the vector a x + b y
     and Model/LeastSquares.v (normal_eq, scale2, ...), Model/Neighbors.v (knn_predict, ...). *)
 From Coq Require Import QArith Qabs ZArith List Bool Arith Lia Permutation.
-From Verde Require Import Lib.QExtra Lib.LinAlgQ Lib.ISort Model.LeastSquares Model.Neighbors Model.Invariance
-  Proofs.LeastSquaresProofs Proofs.NeighborsProofs Proofs.InvarianceProofs Proofs.InvarianceKnnProofs.
+From Verde Require Import Lib.Dyadic Lib.QExtra Lib.LinAlgQ Lib.LinAlgD Lib.ISort Model.LeastSquares Model.Neighbors Model.Invariance
+  Model.InvarianceCases Proofs.LeastSquaresProofs Proofs.NeighborsProofs Proofs.InvarianceProofs Proofs.InvarianceKnnProofs
+  Proofs.InvarianceCasesProofs.
 Import ListNotations.
 Open Scope Q_scope.
 
@@ -214,6 +215,23 @@ Theorem C04_knn_mean_linear : forall k pts v1 v2 a b q, length v1 = length v2 ->
   a * knn_predict RMean k pts v1 q + b * knn_predict RMean k pts v2 q.
 Proof. exact knn_mean_linear. Qed.
 Print Assumptions C04_knn_mean_linear.
+
+(** * what the run-time comparison decides *)
+(** a [true] pair comparison is the rational statement |variant_i - base_i| <= tol for every i, equal lengths *)
+Theorem C04_pair_check_sound : forall tol a b, close_lists tol a b = true ->
+  Forall2 (fun x y => Qabs (D2Q x - D2Q y) <= D2Q tol) a b.
+Proof. exact close_lists_sound. Qed.
+Print Assumptions C04_pair_check_sound.
+(** a [true] shape check: the observed shape IS the model's broadcast shape and the output has that many elements *)
+Theorem C04_shape_check_sound : forall ncomp she shn shout out, shape_okb ncomp she shn shout out = true ->
+  broadcast_shape she shn = Some shout /\ length out = (ncomp * shape_size shout)%nat.
+Proof. exact shape_okb_sound. Qed.
+Print Assumptions C04_shape_check_sound.
+(** the Jacobian the Trend cases certify against is the model's exact monomial Jacobian *)
+Theorem C04_trend_case_jacobian : forall deg es ns,
+  Forall2 veq (DM (dtrend_jacobian deg es ns)) (trend_jacobian deg (combine (map D2Q es) (map D2Q ns))).
+Proof. exact dtrend_jacobian_sound. Qed.
+Print Assumptions C04_trend_case_jacobian.
 
 (** * non-vacuity *)
 (** a 2 x 3 array, its Fortran copy: same ravel, different buffer *)
